@@ -168,6 +168,8 @@ def decode_stack(a, key):
     """content of a stacked/flattened history image: the sequence of batch contents"""
     import numpy as np
 
+    if a is None:
+        return NONE
     a = np.asarray(a)
     if a.size == 0:
         return ()
@@ -190,6 +192,7 @@ class Replayer:
         self.held = []               # [obj, site, optin?] every object handed out or in that is still of interest
         self.alias = []              # (key, what) alias violations, in order
         self.flagged = {}            # id(obj) -> site at which it was first seen to be internal
+        self.keep = []               # flagged objects are kept alive so that their id() is never reused
         self.steps = 0
         self.at = 0
         self.scribbles = 0
@@ -251,6 +254,7 @@ class Replayer:
                 continue
             if self.is_internal(o, arrs, conts):
                 self.flagged[id(o)] = site
+                self.keep.append(o)
                 kind = type(o).__name__
                 self.alias.append(("alias:" + site, f"{kind} handed out/in by {site} is reachable from internal state after {now_op}", self.at))
 
@@ -261,8 +265,9 @@ class Replayer:
                 continue
             if self.is_internal(o, arrs, conts):
                 # became internal through a later operation: the operation that took it in is the site
-                s = now_op if now_op in IMPORT_OPS else site
+                s = now_op if now_op in IMPORT_OPS else "set_current" if now_op == "set_current_held" else site
                 self.flagged[id(o)] = s
+                self.keep.append(o)
                 self.alias.append(("alias:" + s, f"{type(o).__name__} from {site} is reachable from internal state after {now_op}", self.at))
 
     # ---- observation through the public getters
@@ -311,8 +316,11 @@ class Replayer:
             r = g("compute_results", sm.compute_results())
             res = {k: decode_stack(r[k], k) for k in ("x", "logl", "beta")}
             lw, _ = g("compute_logw_and_logz", sm.compute_logw_and_logz(1.0))
-            same = r["logw"].shape == lw.shape and np.array_equal(r["logw"], lw, equal_nan=True)
-            res["logw"] = res["logl"] if same else (-97,)
+            if r["logw"] is None:
+                res["logw"] = NONE
+            else:
+                same = r["logw"].shape == lw.shape and np.array_equal(r["logw"], lw, equal_nan=True)
+                res["logw"] = decode_stack(self.sm.get_history("logl"), "logl") if same else (-97,)
         else:
             res = {k: NONE for k in ("x", "logl", "beta", "logw")}
         view = {"cur": cur, "beta": beta, "hist": hist, "bhist": bhist, "res": res}
@@ -502,35 +510,42 @@ class Replayer:
             except Diverged:
                 raise
             except Exception as ex:
-                raise Diverged("raised:getter-after-" + (site_pre or op) if op in SCRIBBLE_OPS else "raised:getter-after-" + op,
-                               f"a getter raised {ex!r} after {op}")
+                if op in SCRIBBLE_OPS and not l["cp"]:
+                    raise Diverged("stable:" + site_pre, f"a getter raised {ex!r} after the caller overwrote an object obtained via {site_pre}")
+                raise Diverged("raised:getter-after-" + op, f"a getter raised {ex!r} after {op}")
             if norm_view(view) != norm_view(want):
                 what = f"step {n} ({fmt(l)}): accessors return {diff(view, want)}"
                 if op in SCRIBBLE_OPS and not l["cp"]:
                     raise Diverged("stable:" + site_pre, what + f" after the caller overwrote an object obtained via {site_pre}")
+                self.append_only(prev, view, op, n, l)
                 raise Diverged("conform:" + op, what)
             # (3) history is append-only (contents), import / load excepted
-            if prev is not None and op not in IMPORT_OPS:
-                for k in AK:
-                    if view["hist"][k][: len(prev["hist"][k])] != prev["hist"][k]:
-                        raise Diverged("appendonly:" + op, f"step {n} ({fmt(l)}) altered earlier batches of {k}")
-                if view["bhist"][: len(prev["bhist"])] != prev["bhist"]:
-                    raise Diverged("appendonly:" + op, f"step {n} ({fmt(l)}) altered earlier beta history")
+            self.append_only(prev, view, op, n, l)
             prev = view
             # (4) overwrite everything the accessors just returned, read again
             objs = self.flatten([o for name, o in got if name not in self.muted], [])
+            objs_all = self.flatten([o for _, o in got], [])
             self.scribble_objs(free + objs)
             try:
                 view2, got2 = self.observe(op)
             except Diverged:
                 raise
             except Exception as ex:
-                raise Diverged("stable:" + self.blame(free, site, got), f"a getter raised {ex!r} after the caller overwrote what the accessors returned after {op}")
+                raise Diverged("stable:" + self.blame(free + objs_all), f"a getter raised {ex!r} after the caller overwrote what the accessors returned after {op}")
             self.scribble_objs(self.flatten([o for name, o in got2 if name not in self.muted], []))
             if norm_view(view2) != norm_view(view):
-                raise Diverged("stable:" + self.blame(free, site, got),
+                raise Diverged("stable:" + self.blame(free + objs_all),
                                f"step {n} ({fmt(l)}): after overwriting the returned objects the accessors return {diff(view2, view)}")
         return True
+
+    def append_only(self, prev, view, op, n, l):
+        if prev is None or op in IMPORT_OPS:
+            return
+        for k in AK:
+            if view["hist"][k][: len(prev["hist"][k])] != prev["hist"][k]:
+                raise Diverged("appendonly:" + op, f"step {n} ({fmt(l)}) altered earlier batches of {k}: {prev['hist'][k]} -> {view['hist'][k]}")
+        if view["bhist"][: len(prev["bhist"])] != prev["bhist"]:
+            raise Diverged("appendonly:" + op, f"step {n} ({fmt(l)}) altered earlier beta history: {prev['bhist']} -> {view['bhist']}")
 
     def check_alias_named(self, got, now_op):
         arrs, conts = self.internals()
@@ -538,17 +553,12 @@ class Replayer:
             for x in self.flatten(o, []):
                 if id(x) not in self.flagged and self.is_internal(x, arrs, conts):
                     self.flagged[id(x)] = name
+                    self.keep.append(x)
                     self.alias.append(("alias:" + name, f"{type(x).__name__} returned by {name} is reachable from internal state after {now_op}", self.at))
 
-    def blame(self, free, site, got):
-        names = []
-        for x in free:
-            if id(x) in self.flagged:
-                names.append(self.flagged[id(x)])
-        for name, o in got:
-            for x in self.flatten(o, []):
-                if id(x) in self.flagged:
-                    names.append(self.flagged[id(x)])
+    def blame(self, objs):
+        """objs: the objects that were overwritten (flattened BEFORE overwriting - a cleared dict has no members)"""
+        names = [self.flagged[id(x)] for x in objs if id(x) in self.flagged]
         return sorted(set(names))[0] if names else "unknown"
 
 
@@ -601,14 +611,19 @@ def replay_chunk(paths):
     tmp = tempfile.mkdtemp(prefix="c17_", dir=os.environ.get("VERIF_SCRATCH") or None)
     out = {"viol": {}, "count": {}, "behaviours": 0, "steps": 0, "scribbles": 0, "nontrivial": 0, "inconclusive": 0, "explained_by_alias": 0}
 
-    def note(key, what, path, upto=None):
-        out["count"][key] = out["count"].get(key, 0) + 1
+    seen_here = set()
+
+    def note(key, what, path):
+        if key not in seen_here:      # count behaviours, not objects
+            seen_here.add(key)
+            out["count"][key] = out["count"].get(key, 0) + 1
         ops = [fmt(e["l"]) for e in path]
         if key not in out["viol"] or len(ops) < len(out["viol"][key][1]):
             out["viol"][key] = (what, ops)
 
     try:
         for path in paths:
+            seen_here.clear()
             muted = set()
             for _attempt in range(len(OBSERVER_ACCESSORS) + 1):
                 rp = Replayer(StateManager, np, tmp, muted=muted)
@@ -663,6 +678,40 @@ def replay_all(paths, procs=8):
             if k not in tot["viol"] or (len(ops), ops) < (len(tot["viol"][k][1]), tot["viol"][k][1]):
                 tot["viol"][k] = (what, ops)
     return tot
+
+
+def facade_results(ck, cex_path):
+    """Sampler.results() is the public face of compute_results(): drive the spec's shortest Stable
+    counterexample of the code-shaped semantics (one batch committed; results; overwrite; results) through it."""
+    import numpy as np
+    from tempest import Sampler
+
+    s = Sampler(lambda u: u, lambda x: -0.5 * float(np.sum(x ** 2)), n_dim=2, n_particles=8, random_state=0)
+    s.state.update_current({"x": np.full(SHAPE["x"], 1.0), "logl": np.full(SHAPE["logl"], 1.0), "beta": 1.0, "logz": 0.0})
+    s.state.commit_current_to_history()
+    r = s.results()
+    tags = {k: np.array(v, copy=True) for k, v in r.items() if isinstance(v, np.ndarray)}
+    internal = [v for v in (s.state._results_dict or {}).values() if isinstance(v, np.ndarray)]
+    internal += [v for lst in s.state._history.values() for v in lst if isinstance(v, np.ndarray)]
+    shared = r is s.state._results_dict or any(
+        isinstance(v, np.ndarray) and v.size and any(np.shares_memory(v, a) for a in internal) for v in r.values())
+    if shared:
+        ck.violation("alias:Sampler.results", "the dictionary / arrays returned by Sampler.results() are reachable from the sampler's internal state",
+                     {"ops": ["state.update_current", "state.commit_current_to_history", "Sampler.results()"], "spec_counterexample": cex_path})
+    for v in list(r.values()):
+        if isinstance(v, np.ndarray) and v.flags.writeable:
+            v.fill(SENT)
+    r.clear()
+    try:
+        r2 = s.results()
+        changed = sorted(k for k, v in tags.items() if k not in r2 or not np.array_equal(r2[k], v, equal_nan=True))
+    except Exception as ex:
+        changed = [repr(ex)]
+    if changed:
+        ck.violation("stable:Sampler.results", f"after the caller overwrote what Sampler.results() returned, results() differs in {changed}",
+                     {"ops": ["state.update_current", "state.commit_current_to_history", "r = Sampler.results()", "overwrite r", "Sampler.results()"],
+                      "spec_counterexample": cex_path})
+    return {"sampler_results_shared": bool(shared), "sampler_results_changed_keys": changed}
 
 
 # --------------------------------------------------------------------------- the component part
@@ -740,6 +789,7 @@ def component_part(ck) -> dict:
     for key in sorted(tot["viol"], key=lambda k: (len(tot["viol"][k][1]), k)):
         what, ops = tot["viol"][key]
         ck.violation(key, f"{what} [{tot['count'][key]} behaviours]", {"ops": ops, "how": "execute ops on a fresh StateManager (checks/c17.py Replayer)"})
+    facade = facade_results(ck, cex["Stable"]["trace"])
     for p in paths[:: max(1, len(paths) // 4)][:4]:
         ck.sample({"ops": [fmt(e["l"]) for e in p], "final_view": p[-1]["v"]})
     fullr, deepr = runs["intended_full"], runs["intended_deep"]
@@ -767,6 +817,7 @@ def component_part(ck) -> dict:
         "tlc_coverage": {a: list(cov.get(a, (0, 0))) for a in ACTIONS},
         "tlc_coverage_code_shaped": {a: list(cov_impl.get(a, (0, 0))) for a in ACTIONS},
         "code_shaped_counterexamples": cex,
+        "sampler_results_facade": facade,
     }
 
 
